@@ -18,30 +18,32 @@ import (
 const modulePath = "git.torproject.org/pluggable-transports/snowflake.git/v2"
 
 type Engine struct {
-	fset   *token.FileSet
-	prog   *ssa.Program
-	pkgs   map[string]*packages.Package
-	spkgs  map[string]*ssa.Package
-	files  map[string]*ContractFile // by package path ("" = prelude)
-	contracts map[string]*Contract  // pkgpath + "::" + key  (func); "extern::" + key; "iface::" + key
-	specs     map[string]*SpecFunc   // pkgpath::name, and "::name" for prelude
-	ghosts    []*GhostDecl
-	invariants []*InvariantDecl
-	guarded    []*GuardedDecl
-	lemmas     []*LemmaDecl
-	globals    []*GlobalFact
-	preds      map[string]*SpecFunc
-	immutableKeys map[string]string // component key -> declaration text
+	fset           *token.FileSet
+	prog           *ssa.Program
+	pkgs           map[string]*packages.Package
+	spkgs          map[string]*ssa.Package
+	files          map[string]*ContractFile // by package path ("" = prelude)
+	contracts      map[string]*Contract     // pkgpath + "::" + key  (func); "extern::" + key; "iface::" + key
+	specs          map[string]*SpecFunc     // pkgpath::name, and "::name" for prelude
+	ghosts         []*GhostDecl
+	invariants     []*InvariantDecl
+	guarded        []*GuardedDecl
+	guardNotes     []string // accessors demoted because their callers are not all visible
+	guardAssume    []string // assumptions of the guarded-by check
+	lemmas         []*LemmaDecl
+	globals        []*GlobalFact
+	preds          map[string]*SpecFunc
+	immutableKeys  map[string]string // component key -> declaration text
 	immutableDecls []immDecl
-	immObls    []*Obligation
-	namedTypes []types.Type
-	modsets   map[*ssa.Function]*ModSet
-	modInProgress map[*ssa.Function]bool
-	immGlobals map[*ssa.Global]int // 0 unknown, 1 immutable, 2 mutable
-	allFuncs  map[*ssa.Function]bool
-	repoDir   string
-	LoadErrors []string
-	protectedKeys map[string]bool
+	immObls        []*Obligation
+	namedTypes     []types.Type
+	modsets        map[*ssa.Function]*ModSet
+	modInProgress  map[*ssa.Function]bool
+	immGlobals     map[*ssa.Global]int // 0 unknown, 1 immutable, 2 mutable
+	allFuncs       map[*ssa.Function]bool
+	repoDir        string
+	LoadErrors     []string
+	protectedKeys  map[string]bool
 }
 
 func LoadEngine(repoDir string, patterns []string, preludeDir string) (*Engine, error) {
